@@ -8,7 +8,7 @@ use std::sync::Arc;
 
 use serde_json::{json, Value};
 use tantivy::directory::ManagedDirectory;
-use tantivy::{Directory, Index, IndexWriter};
+use tantivy::{Index, IndexWriter};
 use tvmon::crash::*;
 use tvmon::hist::*;
 use tvmon::mondir::{meta_referenced_files, Event, MonCfg, MonDir, OpKind};
@@ -309,11 +309,256 @@ fn case(case: u64, rng: &mut Rng, rep: &mut Report, thorough: bool) {
     let _ = Arc::new(0);
 }
 
+
+// ---------------------------------------------------------------------------------------------
+// E6: syscall-level twin on a real MmapDirectory
+
+fn twin_history(seed: u64) -> (ExecCfg, Vec<Op>) {
+    let mut rng = Rng::new(seed);
+    let cfg = ExecCfg {
+        threads: *rng.pick(&[1usize, 2]),
+        merge_policy: rng.bool(),
+        sort: None,
+        budget_per_thread: 15_000_000,
+    };
+    let len = rng.urange(8, 22);
+    let mut g = HistGen::new();
+    let ops = g.history(&mut rng, &GenCfg::standard(len).no_cutters().no_delete_all());
+    (cfg, ops)
+}
+
+fn twin_child(dir: &str, seed: u64) -> ! {
+    use tvmon::systwin::*;
+    let (cfg, ops) = twin_history(seed);
+    let root = std::fs::canonicalize(dir).expect("dir");
+    let inner = tantivy::directory::MmapDirectory::open(&root).expect("mmap dir");
+    let tee = TeeDir { inner, root: root.clone(), log: Default::default() };
+    let log = tee.log.clone();
+    marker("begin", "create");
+    let mut ex = Exec::create(Box::new(tee), cfg, None).expect("create");
+    ex.marker = Some(std::sync::Arc::new(|w: &str, n: &str| marker(w, n)));
+    marker("created", "x");
+    for op in &ops {
+        ex.step(op);
+    }
+    ex.drain_merges();
+    if let Some(w) = ex.writer.take() {
+        let _ = w.wait_merging_threads();
+    }
+    marker("end", "x");
+    let commits: Vec<Vec<u64>> = ex.model.commits.iter().map(|c| c.keys().copied().collect()).collect();
+    let side = sidecar_json(&log.lock().unwrap(), &commits);
+    std::fs::write(format!("{dir}.sidecar.json"), serde_json::to_vec(&side).unwrap()).expect("sidecar");
+    std::process::exit(0);
+}
+
+fn twin_case(case: u64, rng: &mut Rng, rep: &mut Report, thorough: bool) {
+    use tvmon::systwin::*;
+    let seed = rng.next_u64();
+    let tmp = match tempfile::tempdir() {
+        Ok(t) => t,
+        Err(e) => {
+            rep.harness_error(format!("tempdir: {e}"));
+            return;
+        }
+    };
+    let dir = tmp.path().join("idx");
+    std::fs::create_dir_all(&dir).unwrap();
+    let dir_s = dir.to_string_lossy().to_string();
+    let trace_path = tmp.path().join("trace.txt");
+    let exe = std::env::current_exe().expect("exe");
+    let st = std::process::Command::new("strace")
+        .args(["-f", "-y", "-s", "0", "-o"])
+        .arg(&trace_path)
+        .args(["-e", "trace=openat,open,creat,write,pwrite64,writev,fsync,fdatasync,rename,renameat,renameat2,unlink,unlinkat,statx,newfstatat,stat,lstat"])
+        .arg(&exe)
+        .args(["--mmap-child", &dir_s, "--cseed", &seed.to_string()])
+        .stdout(std::process::Stdio::null())
+        .stderr(std::process::Stdio::null())
+        .status();
+    match st {
+        Ok(s) if s.success() => {}
+        other => {
+            rep.note(format!("strace twin not runnable: {other:?}"));
+            rep.count("syscall_twin_unavailable", 1);
+            return;
+        }
+    }
+    let root = std::fs::canonicalize(&dir).unwrap().to_string_lossy().to_string();
+    let text = std::fs::read_to_string(&trace_path).unwrap_or_default();
+    let evs = parse_trace(&text, &root);
+    let side: Value = match std::fs::read(format!("{dir_s}.sidecar.json")).ok().and_then(|b| serde_json::from_slice(&b).ok()) {
+        Some(v) => v,
+        None => {
+            rep.harness_error("sidecar missing");
+            return;
+        }
+    };
+    // contents: final files on disk + graveyard; atomic payloads per target
+    let mut files: BTreeMap<String, Arc<Vec<u8>>> = BTreeMap::new();
+    if let Ok(rd) = std::fs::read_dir(&dir) {
+        for e in rd.flatten() {
+            if let Ok(b) = std::fs::read(e.path()) {
+                files.insert(e.file_name().to_string_lossy().to_string(), Arc::new(b));
+            }
+        }
+    }
+    if let Some(g) = side["graveyard"].as_object() {
+        for (k, v) in g {
+            files.insert(k.clone(), Arc::new(unhex(v.as_str().unwrap_or(""))));
+        }
+    }
+    let mut atomics: BTreeMap<String, Vec<Arc<Vec<u8>>>> = BTreeMap::new();
+    if let Some(a) = side["atomics"].as_array() {
+        for x in a {
+            atomics
+                .entry(x[0].as_str().unwrap_or("").to_string())
+                .or_default()
+                .push(Arc::new(unhex(x[1].as_str().unwrap_or(""))));
+        }
+    }
+    let contents = Contents { files, atomics };
+    let commits: Vec<std::collections::BTreeSet<u64>> = side["commits"]
+        .as_array()
+        .map(|a| a.iter().map(|c| c.as_array().map(|v| v.iter().filter_map(|x| x.as_u64()).collect()).unwrap_or_default()).collect())
+        .unwrap_or_default();
+    rep.eval();
+    let n_fsync = evs.iter().filter(|e| matches!(e, Sys::SyncFile { .. })).count();
+    let n_dsync = evs.iter().filter(|e| matches!(e, Sys::SyncDir)).count();
+    let n_ren = evs.iter().filter(|e| matches!(e, Sys::Rename { .. })).count();
+    let n_unl = evs.iter().filter(|e| matches!(e, Sys::Unlink { .. })).count();
+    rep.count("syscall:file_fdatasync", n_fsync as u64);
+    rep.count("syscall:dir_fdatasync", n_dsync as u64);
+    rep.count("syscall:rename", n_ren as u64);
+    rep.count("syscall:unlink", n_unl as u64);
+    rep.count("syscall:events", evs.len() as u64);
+    let mut st = SysState::new();
+    let mut created = false;
+    let mut acked = 0usize; // commits whose return marker was seen
+    let mut in_flight = false;
+    let mut prng = Rng::new(seed ^ 0x51);
+    let mut images = 0u64;
+    let mut seen_sigs = std::collections::BTreeSet::new();
+    let n_mut = evs.iter().filter(|e| !matches!(e, Sys::Marker { .. })).count();
+    let stride = if thorough { 1 } else { (n_mut / 250).max(1) };
+    let mut idx = 0usize;
+    for ev in &evs {
+        if let Sys::Marker { what, note } = ev {
+            match what.as_str() {
+                "created" => created = true,
+                "call:commit" | "call:prepare_commit" => in_flight = true,
+                "ret:commit" => {
+                    if note == "ok" {
+                        acked += 1;
+                    }
+                    in_flight = false;
+                }
+                "ret:abort" => in_flight = false,
+                _ => {}
+            }
+            continue;
+        }
+        if let Err(e) = st.apply(ev, &contents) {
+            rep.harness_error(format!("twin case {case}: trace not interpretable: {e}"));
+            return;
+        }
+        if !created {
+            continue;
+        }
+        idx += 1;
+        let important = matches!(ev, Sys::Rename { .. } | Sys::SyncDir | Sys::Unlink { .. } | Sys::SyncFile { .. });
+        if idx % stride != 0 && !important {
+            continue;
+        }
+        let p = st.pending_len();
+        let mut masks: Vec<(Vec<bool>, &str)> = vec![(vec![false; p], "durable-only"), (vec![true; p], "all-applied")];
+        for k in 1..p.min(6) {
+            let mut m = vec![false; p];
+            for x in m.iter_mut().take(k) {
+                *x = true;
+            }
+            masks.push((m, "M1-prefix"));
+        }
+        if p > 1 {
+            for _ in 0..2 {
+                masks.push(((0..p).map(|_| prng.bool()).collect(), "M2-subset"));
+            }
+        }
+        for (mask, label) in masks {
+            for mode in [SContent::Synced, SContent::Full] {
+                if mode == SContent::Full && st.unsynced_files() == 0 {
+                    continue;
+                }
+                let img = st.image(&mask, mode, &mut prng);
+                if !img.contains_key("meta.json") {
+                    rep.violation(format!("syscall:recover:no-meta.json[{label}]"), json!({"case": case, "after": format!("{ev:?}")}));
+                    continue;
+                }
+                images += 1;
+                let idir = tmp.path().join(format!("img{images}"));
+                std::fs::create_dir_all(&idir).unwrap();
+                for (pth, b) in &img {
+                    let _ = std::fs::write(idir.join(pth), b);
+                }
+                let res: Result<std::collections::BTreeSet<u64>, String> = (|| {
+                    let idx = Index::open_in_dir(&idir).map_err(|e| format!("open: {e}"))?;
+                    let bad = idx.validate_checksum().map_err(|e| format!("validate_checksum: {e}"))?;
+                    if !bad.is_empty() {
+                        return Err(format!("checksum mismatch: {bad:?}"));
+                    }
+                    let r = idx.reader().map_err(|e| format!("reader: {e}"))?;
+                    live_ids(&r.searcher())
+                })();
+                let _ = std::fs::remove_dir_all(&idir);
+                let model = if label == "M2-subset" { "M2" } else { "M1" };
+                match res {
+                    Err(e) => {
+                        let kind = e.split(':').next().unwrap_or("?").to_string();
+                        let sig = format!("syscall:recover:{kind}-failed[{model}]");
+                        if seen_sigs.insert(sig.clone()) {
+                            rep.violation(sig, json!({"case": case, "cseed": seed, "after": format!("{ev:?}"), "outcome": label, "content": format!("{mode:?}"), "err": e}));
+                        }
+                    }
+                    Ok(ids) => {
+                        let ok_last = commits.get(acked).map(|c| *c == ids).unwrap_or(false);
+                        let ok_next = in_flight && commits.get(acked + 1).map(|c| *c == ids).unwrap_or(false);
+                        if !(ok_last || ok_next) {
+                            let older = commits[..acked.min(commits.len())].iter().any(|c| *c == ids);
+                            let sig = format!(
+                                "syscall:recover:{}[{model}]",
+                                if older { "state-is-an-older-commit-than-the-last-acknowledged" } else { "state-matches-no-commit" }
+                            );
+                            if seen_sigs.insert(sig.clone()) {
+                                rep.violation(sig, json!({"case": case, "cseed": seed, "after": format!("{ev:?}"), "outcome": label,
+                                    "content": format!("{mode:?}"), "acked": acked, "in_flight": in_flight, "n_ids": ids.len()}));
+                            }
+                        } else {
+                            let evk = format!("{ev:?}");
+                            rep.nontrivial(format!("syscall|{}|{label}|{mode:?}", evk.split(' ').next().unwrap_or("")));
+                        }
+                    }
+                }
+            }
+        }
+    }
+    rep.evals(images);
+    rep.count("syscall_twin_histories", 1);
+    rep.count("syscall_twin_images", images);
+}
+
 fn main() {
+    let argv: Vec<String> = std::env::args().collect();
+    if let Some(i) = argv.iter().position(|a| a == "--mmap-child") {
+        let dir = argv[i + 1].clone();
+        let seed: u64 = argv.iter().position(|a| a == "--cseed").and_then(|j| argv.get(j + 1)).and_then(|s| s.parse().ok()).unwrap_or(1);
+        twin_child(&dir, seed);
+    }
     let ctx = Ctx::from_env("C01", "fault_enumeration");
     let thorough = !ctx.quick();
     let n = ctx.scale(24, 600) as u64;
-    let rep = run_cases(&ctx, "crash", n, |c, rng, rep| case(c, rng, rep, thorough));
+    let mut rep = run_cases(&ctx, "crash", n, |c, rng, rep| case(c, rng, rep, thorough));
+    let n_twin = ctx.scale(4, 48) as u64;
+    rep.merge(run_cases(&ctx, "syscall", n_twin, |c, rng, rep| twin_case(c, rng, rep, thorough)));
     simple_finish(
         &ctx,
         rep,
